@@ -1,7 +1,7 @@
 import Props.C11
 import Props.Driver
 /-!
-# C11, second clause at run level: marking candidates withdrawn = deleting them (wigm, wigm-prf, wigm-prf-batch)
+# C11, second clause at run level: marking candidates withdrawn = deleting them (wigm, wigm-prf, wigm-prf-batch, cfer, cfer-batch)
 
 For every case inside `caseOK` (the reader has already removed withdrawn candidates from the rankings: `Props/C11.lean`,
 `Props/C15.lean`), every fixed-point precision and the three wigm rule names in every configuration: the state returned for the
@@ -11,7 +11,8 @@ snapshot of the record) — same actions in the same order, same tallies, quota,
 
 The proof (`DroopProofs/DropW.lean`, `DropWWigm.lean`) is a commutation `dropW (f s) = f (dropW s)` for every step `f` of the
 driver: selectors are blind to withdrawn candidates, vote and pending updates keep every status, and `elect` / `defeat` are only
-addressed to ids of hopeful candidates.  Scotland, cfer, mpls, the Meek family and QPQ: compared only (re-runs on the real code).
+addressed to ids of hopeful candidates.  The same for cfer / cfer-batch (`cfer_withdrawn_is_absent`, `DropWCfer.lean`).
+Scotland, mpls, the Meek family and QPQ: compared only (re-runs on the real code).
 -/
 namespace Droop.C11
 open Droop
@@ -104,6 +105,28 @@ theorem wigm_withdrawn_is_absent (p : Nat) (c : Case) (hr : c.rule = "wigm" ∨ 
     C02.start_of_init p _ _ hI hq1 (initState_noW _ c hk)
   exact wigm_dropW (fixedArith p) (fixed_lawful p) (fixed_eqRefl p) 2 (by norm_num) (fixed_rewLower_mulDiv p) o (fun _ => rfl)
     _ t t' hG hL hrun hrun'
+
+/-- **withdrawn means absent, cfer and cfer-batch** -/
+theorem cfer_withdrawn_is_absent (p : Nat) (c : Case) (hr : c.rule = "cfer" ∨ c.rule = "cfer-batch") (hok : caseOK c = true) :
+    ∃ t t', runRuleSt (fixedArith p) c = some t ∧ runRuleSt (fixedArith p) (deleteWithdrawn c) = some t'
+      ∧ t' = Droop.dropW t := by
+  have hk := caseOK_iff c hok
+  have hk' := caseOK_deleteWithdrawn c hk
+  have hok' := caseOK_bool_of _ hk'
+  obtain ⟨t, ⟨hrun, _, _⟩, _⟩ := Driver.cfer p c hr hok
+  obtain ⟨t', ⟨hrun', _, _⟩, _⟩ := Driver.cfer p (deleteWithdrawn c) hr hok'
+  refine ⟨t, t', hrun, hrun', ?_⟩
+  have hm : methodOf c.rule = .wigm := Driver.methodOf_gregory (by rcases hr with hr | hr <;> rw [hr] <;> simp)
+  have hI := initState_init (fixedArith p) (fixed_lawful p) c hm hk
+  obtain ⟨batch, he, he'⟩ : ∃ batch, runRuleSt (fixedArith p) c = cferCount (fixedArith p) batch (initState (fixedArith p) c)
+      ∧ runRuleSt (fixedArith p) (deleteWithdrawn c) = cferCount (fixedArith p) batch (initState (fixedArith p) (deleteWithdrawn c)) := by
+    rcases hr with hr | hr
+    · exact ⟨false, by simp [runRuleSt, runRuleSt', hr], by simp [runRuleSt, runRuleSt', deleteWithdrawn, hr]⟩
+    · exact ⟨true, by simp [runRuleSt, runRuleSt', hr], by simp [runRuleSt, runRuleSt', deleteWithdrawn, hr]⟩
+  rw [he] at hrun
+  rw [he', initState_deleteWithdrawn] at hrun'
+  have hG := C01.cfer_start p _ hI (initState_fresh _ c) (initState_enough _ c hk) rfl
+  exact cfer_dropW (fixedArith p) (fixed_lawful p) rfl batch _ t t' hG hrun hrun'
 
 /-- what the driver prints for the two runs differs only by the withdrawn candidates' rows -/
 theorem finish_dropW {α : Type} [CommRing α] [LinearOrder α] [IsStrictOrderedRing α] (A : Arith α) (t : St α) :
